@@ -341,7 +341,6 @@ class GFA:
             output_file += ".gfa"
         # print("I am here")
         self.write_gfa(
-            self,
             set_of_nodes=set_of_nodes,
             output_file=output_file,
             append=append,
